@@ -1,4 +1,5 @@
 """C04 Canonicalisation and lossless compression preserve the represented object."""
+from vk.symx.harness import guarded
 import numpy as np
 
 from vk.rtc.harness import run_cases
@@ -208,7 +209,7 @@ def check(run):
     C04_proof.prove(run)
     C04_proof.prove_compress_slice(run)
     from props import C04_kernel
-    C04_kernel.prove(run)
+    guarded(run, C04_kernel.prove)
     seeds = [run.seed] if run.tier == "quick" else [run.seed, run.seed + 1]
     ns = [1, 2, 3, 4] if run.tier == "quick" else [1, 2, 3, 4, 5]
     cases = [(name, n, s, run.tier) for name in ("spin", "spinqn", "spin2qn", "holstein", "multi") for n in ns for s in seeds
